@@ -101,6 +101,7 @@ def public_classes():
         ('SingleListGrader', M.SingleListGrader, {'subgrader': M.StringGrader()}), ('ListGrader', M.ListGrader, {'answers': ['a', 'b'], 'subgraders': M.StringGrader()}),
         ('IntervalGrader', M.IntervalGrader, {}),
         ('SumGrader', M.SumGrader, {'answers': {'lower': '1', 'upper': '2', 'summand': 'n', 'summation_variable': 'n'}}),
+        ('IntegralGrader', M.IntegralGrader, {'answers': {'lower': '1', 'upper': '2', 'integrand': 'x', 'integration_variable': 'x'}}),
         ('RealInterval', M.RealInterval, {}), ('IntegerRange', M.IntegerRange, {}), ('ComplexRectangle', M.ComplexRectangle, {}), ('ComplexSector', M.ComplexSector, {}),
         ('RandomFunction', M.RandomFunction, {}), ('DependentSampler', M.DependentSampler, {'formula': 'x'}),
         ('RealVectors', M.RealVectors, {}), ('ComplexVectors', M.ComplexVectors, {}), ('RealMatrices', M.RealMatrices, {}), ('ComplexMatrices', M.ComplexMatrices, {}),
